@@ -216,6 +216,38 @@ theorem insert_existing_keeps_pos (kind : Kind) (h : Nat → Nat) (t : Table) (h
       · intro e; first | exact absurd e hkind | cases e
       · intro _; first | trivial | rfl
 
+/-- inserting a key that is NOT present, at any position of any table meeting the invariant (any capacity, hash function,
+    collision pattern): the new entry stands immediately before the entry `position` designated (`pos = size`: at the end,
+    `pos = 0`: in front), every other entry keeps its relative order, the returned iterator designates the new entry, and
+    HashMap stores the given value, HashSet / PoolMap the default -/
+theorem insert_new_before_position (kind : Kind) (h : Nat → Nat) (t : Table) (hi : t.Inv h) (pos k v : Nat)
+    (hp : pos ≤ t.order.length) (hk : k ∉ Spec.keys t.iterate) :
+    let r := t.insert kind h pos k v
+    r.1.iterate = t.iterate.take pos ++ (k, if kind = Kind.map then v else 0) :: t.iterate.drop pos ∧
+    posOf r.2 r.1.order = pos ∧ r.1.iterate[pos]? = some (k, if kind = Kind.map then v else 0) ∧
+    r.1.size = t.size + 1 := by
+  have hins := hi.insert kind pos k v hp
+  have hl : Spec.lookup k t.iterate = none := lookup_none_of_not_mem k _ hk
+  have hspec : Spec.insert kind t.iterate pos k v
+      = (insertAt pos (k, if kind = Kind.map then v else 0) t.iterate, pos, if kind = Kind.map then v else 0) := by
+    simp only [Spec.insert, hl, Spec.stored]
+  have hlen : pos ≤ t.iterate.length := by rw [iterate_length]; exact hp
+  refine ⟨?_, ?_, ?_, ?_⟩
+  · rw [hins.2.1, hspec]; rfl
+  · rw [hins.2.2.1, hspec]
+  · rw [hins.2.1, hspec]
+    simp only [insertAt]
+    rw [List.getElem?_append_right (by simp [List.length_take, Nat.min_eq_left hlen])]
+    simp [List.length_take, Nat.min_eq_left hlen]
+  · have h1 := hins.1.size_eq
+    have h2 := hi.size_eq
+    have h3 : (t.insert kind h pos k v).1.iterate.length = t.iterate.length + 1 := by
+      rw [hins.2.1, hspec]
+      simp only [insertAt, List.length_append, List.length_cons, List.length_take, List.length_drop]
+      omega
+    rw [iterate_length, iterate_length] at h3
+    show (t.insert kind h pos k v).1.size = t.size + 1
+    omega
 /-! ### the object itself as the `other` argument -/
 
 /-- specification level: appending a unique-key table to itself changes nothing (every key is found; HashSet / PoolMap leave
